@@ -340,6 +340,41 @@ def run(ctx):
                     ok = True
         ctx.ob("C01.R6c", L.short(fn), ok, fn.loc, "push version must be (index >> slot_bits) << 1 (round number, even)")
 
+    # ---------------------------------------------------------------- R7 a batch split at the ring end stays contiguous
+    n7 = 0
+    for fn in fb.find(pred=lambda f: is_queue_fn(f) and f.has_cfg() and not f.lambda_):
+        ig = IG(fn, inline=lambda a, b, c: False)
+        live = ig.live_nodes()
+        # partial batch steps: calls into the queue that take (callback, index, num) and report how many they handled
+        parts = [n for n in ig.ev_nodes() if n.id in live and n.ev["e"] == "call" and len(n.ev.get("args", [])) == 3 and
+                 re.search(r"ConcurrentBoundedQueue<.*>::\w+$", n.ev.get("callee", "") or "") and
+                 re.search(r"unsigned long|size_t", n.ev.get("rtype", "") or "")]
+        for a in parts:
+            for b in parts:
+                if a is b or not ig.path_exists(a, b):
+                    continue
+                n7 += 1
+                want = pstr(strip_cast(ig.rarg(a, 2)))
+
+                def complete(atom, pol, lab, a=a, want=want):
+                    c = L.effective_cmp(atom, pol)
+                    if c is None:
+                        return False
+                    op, l, r = c
+                    if any(ig.ev_of(o) is a for o in ig.origins(r)):
+                        op, l, r = L.SWAP[op], r, l
+                    if not any(ig.ev_of(o) is a for o in ig.origins(l)):
+                        return False
+                    return op in (">=", "==") and pstr(strip_cast(ig.resolve(r, lab.frame) if False else r)) == want
+                ce = L.cond_edges(ig, complete, live)
+                ctx.ob("C01.R7", "%s@%s" % (L.short(fn)[:100], b.line), bool(ce) and b.id not in ig.reach([ig.entry], removed_edges=ce),
+                       b.where,
+                       "the second piece of a batch that wraps the ring end may only run when the first piece was handled completely "
+                       "(result == requested): otherwise an exclusive producer/consumer, whose ticket is advanced by a plain store, "
+                       "jumps over the slot that was not ready - that ticket is never served and everything behind it is stranded",
+                       site="%s@split-batch" % fn.name)
+    ctx.floor("C01.R7", n7, 6, "split batches in try_push_n / try_pop_n instances")
+
 
 SWEEP = ["concurrent/test_bounded_queue.cpp", "concurrent/test_bounded_queue_press_mpmc.cpp", "concurrent/test_execution_queue.cpp",
          "test_executor.cpp", "logging/test_async_file_appender.cpp"]
